@@ -12,7 +12,9 @@
 (*          caFile     : none | ca1 | ca2 | unreadable | garbage            *)
 (*          caLoaded   : none | ca1 | ca2                                   *)
 (*          caPool     : none | ca1 | ca2   (a pool holding that CA)        *)
-(*          serverName, insecure, callback, ticketsDisabled, cache : BOOLEAN ]*)
+(*          serverName : none | dns | ipv4 | ipv6  (a host name or an IP     *)
+(*                       literal: the override is carried whatever it is)   *)
+(*          insecure, callback, ticketsDisabled, cache : BOOLEAN ]           *)
 (* "rsa"/"ec" name the two client key pairs (certificate ids = key ids).    *)
 EXTENDS Integers, Sequences, FiniteSets, TLC
 
@@ -24,12 +26,13 @@ CAFiles     == {"none", "ca1", "ca2", "unreadable", "garbage"}
 CALoadeds   == {"none", "ca1", "ca2"}
 CAPools     == {"none", "ca1", "ca2"}
 CAIds       == {"ca1", "ca2"}
+ServerNames == {"none", "dns", "ipv4", "ipv6"}
 
 TLS12 == 771   \* 0x0303
 
 PoolSet(o) == IF o.caPool = "none" THEN {} ELSE {o.caPool}
 
-ErrCfg(stage) == [err |-> stage, minVersion |-> 0, skipVerify |-> FALSE, serverName |-> FALSE, system |-> FALSE,
+ErrCfg(stage) == [err |-> stage, minVersion |-> 0, skipVerify |-> FALSE, serverName |-> "none", system |-> FALSE,
                   roots |-> {}, clientCert |-> "none", callback |-> FALSE, tickets |-> FALSE, cache |-> FALSE]
 
 (***************************************************************************)
@@ -57,7 +60,7 @@ Config(o) ==
   IN IF certErr # "" THEN ErrCfg(certErr)
      ELSE IF caErr THEN ErrCfg("ca")
      ELSE [err |-> "", minVersion |-> TLS12,
-           skipVerify |-> (IF o.serverName THEN FALSE ELSE o.insecure),
+           skipVerify |-> (IF o.serverName # "none" THEN FALSE ELSE o.insecure),
            serverName |-> o.serverName, system |-> system, roots |-> roots, clientCert |-> clientCert,
            callback |-> o.callback, tickets |-> o.ticketsDisabled, cache |-> o.cache]
 
@@ -76,7 +79,7 @@ NoCASupplied(o) == o.caLoaded = "none" /\ o.caFile = "none" /\ o.caPool = "none"
 
 ConfigAllowed(o, c) ==
   /\ c.err = "" => c.minVersion >= TLS12                                   \* never below TLS 1.2
-  /\ c.err = "" => (c.skipVerify <=> o.insecure /\ ~o.serverName)          \* skips verification only when asked and no server name
+  /\ c.err = "" => (c.skipVerify <=> o.insecure /\ o.serverName = "none")  \* skips verification only when asked and no server name
   /\ c.err = "" => (c.system <=> NoCASupplied(o))                          \* system pool only when no roots are supplied
   /\ c.err = "" /\ ~c.system => c.roots = SuppliedRoots(o)                 \* exactly the supplied roots
   /\ c.err = "" => c.serverName = o.serverName /\ c.callback = o.callback  \* carried unchanged
@@ -89,7 +92,7 @@ ConfigAllowed(o, c) ==
 
 WhyNot(o, c) ==
   IF c.err = "" /\ c.minVersion < TLS12 THEN "min-version-below-tls12"
-  ELSE IF c.err = "" /\ ~(c.skipVerify <=> o.insecure /\ ~o.serverName) THEN "insecure-skip-verify"
+  ELSE IF c.err = "" /\ ~(c.skipVerify <=> o.insecure /\ o.serverName = "none") THEN "insecure-skip-verify"
   ELSE IF c.err = "" /\ ~(c.system <=> NoCASupplied(o)) THEN "system-pool-iff-no-roots-supplied"
   ELSE IF c.err = "" /\ ~c.system /\ c.roots # SuppliedRoots(o) THEN "roots-not-exactly-the-supplied-ones"
   ELSE IF c.err = "" /\ ~(c.serverName = o.serverName /\ c.callback = o.callback /\ c.tickets = o.ticketsDisabled /\ c.cache = o.cache)
@@ -115,5 +118,15 @@ HandshakeOK(c, sv) == /\ c.err = ""
                       /\ ~sv.old                                  \* a server limited to TLS 1.1 is never accepted
                       /\ ServerVerified(c, sv)
                       /\ sv.wantsCert => c.clientCert # "none"
+\* The configuration is a value fixed when TLSClientAuth returns: what happens to the certificate / key files
+\* afterwards (replaced by another valid pair, half rotated, removed) does not change what a later handshake presents.
+FileMutations == {"none", "replace", "half", "remove"}
+PresentedAfter(c, sv, mutation) == IF HandshakeOK(c, sv) /\ sv.wantsCert THEN c.clientCert ELSE "none"
+\* mutant (must differ): the files are re-read at every handshake; a failed reload presents no certificate
+OtherPair(id) == IF id = "rsa" THEN "ec" ELSE "rsa"
+RereadPresented(c, sv, fromFiles, mutation) ==
+  IF ~fromFiles \/ mutation = "none" THEN PresentedAfter(c, sv, mutation)
+  ELSE IF mutation = "replace" THEN OtherPair(c.clientCert) ELSE "none"
+
 Presented(c, sv) == IF HandshakeOK(c, sv) /\ sv.wantsCert THEN c.clientCert ELSE "none"
 =============================================================================
